@@ -22,11 +22,13 @@ pub struct GenCfg {
     /// every statement also prints a trace token
     pub trace: bool,
     pub floats: bool,
+    /// calls_program: always add the recursive function (FOR / SELECT shapes) and call it with an argument of 2 or 3
+    pub force_rec: bool,
 }
 
 impl GenCfg {
     pub fn core(max_stmts: usize, max_depth: usize) -> GenCfg {
-        GenCfg { max_stmts, max_depth, strings: true, data: true, errors: true, procs: false, arrays: false, records: false, gotos: false, gosubs: false, handlers: false, deftypes: true, trace: false, floats: true }
+        GenCfg { max_stmts, max_depth, strings: true, data: true, errors: true, procs: false, arrays: false, records: false, gotos: false, gosubs: false, handlers: false, deftypes: true, trace: false, floats: true, force_rec: false }
     }
 }
 
@@ -1125,8 +1127,12 @@ impl<'t, 'c> Gen<'t, 'c> {
         // ELSE block, inside a FOR body whose limit differs per activation, or inside a CASE expression that is
         // followed by further CASE tests of the same SELECT (whatever a block construct keeps while it runs must be
         // kept per activation)
-        if self.t.chance(1, 2) {
+        let mut forced_rec: Option<usize> = None;
+        if self.t.chance(1, 2) || self.cfg.force_rec {
             let p = self.prog.procs.len();
+            if self.cfg.force_rec {
+                forced_rec = Some(p);
+            }
             let name = "Rec&".to_string();
             let n = LValue { name: "N%".into(), var: 0, index: vec![], fields: vec![], sty: STy::B(Ty::Int) };
             let acc = LValue { name: "ACC&".into(), var: 1, index: vec![], fields: vec![], sty: STy::B(Ty::Long) };
@@ -1135,7 +1141,7 @@ impl<'t, 'c> Gen<'t, 'c> {
             let j = LValue { name: "J%".into(), var: 4, index: vec![], fields: vec![], sty: STy::B(Ty::Int) };
             let tv = LValue { name: "T&".into(), var: 5, index: vec![], fields: vec![], sty: STy::B(Ty::Long) };
             let k = *self.t.pick(&[2i64, 3, 1, 5]);
-            let shape = self.t.choose(4);
+            let shape = if self.cfg.force_rec { 2 + self.t.choose(2) } else { self.t.choose(4) };
             let n_minus_1 = || Expr::Bin(BinOp::Sub, Box::new(Expr::Load(n.clone())), Box::new(Expr::Lit(Lit::Whole(1))));
             let by_value_acc = || Expr::Paren(Box::new(Expr::Load(acc.clone())));
             let recursive_part: Vec<Stmt> = match shape {
@@ -1242,6 +1248,10 @@ impl<'t, 'c> Gen<'t, 'c> {
                     main.push(Stmt::CallSub(p, args));
                 }
             }
+        }
+        if let Some(p) = forced_rec {
+            let n = 2 + self.t.choose(2) as i64;
+            main.push(Stmt::Print(vec![PrintItem::E(Expr::Call(p, vec![Expr::Lit(Lit::Whole(n)), Expr::Lit(Lit::Whole(0))]))]));
         }
         self.closing_print(&mut main);
         self.prog.main = main;
